@@ -65,3 +65,7 @@ N("c16-n-receive-retval-name", "C16", BUF, RC, "            chunk = bytes(self._
 N("c16-n-until-delim-size-alias", "C16", BUF, RU, "                del self._buffer[: index + len(delimiter) :]", "                del self._buffer[: index + delimiter_size]")
 N("c16-n-until-offset-order", "C16", BUF, RU, "offset = max(len(self._buffer) - delimiter_size + 1, 0)", "offset = max(0, 1 + len(self._buffer) - len(delimiter))")
 N("c16-n-exactly-inline-remaining", "C16", BUF, RX, "chunk = await self.receive_stream.receive(remaining)", "chunk = await self.receive_stream.receive(nbytes - len(self._buffer))")
+
+# from seeded changes C16/c and C16/d (round 2)
+M("c16-text-encoder-reset-on-error", "C16", TXT, "TextSendStream.send", "        encoded = self._encoder.encode(item)", "        try:\n            encoded = self._encoder.encode(item)\n        except UnicodeError:\n            self._encoder.reset()\n            raise", ["R16-d"])
+M("c16-receive-checkpoint-after-consume", "C16", BUF, RC, "            del self._buffer[:max_bytes]\n            return chunk", "            del self._buffer[:max_bytes]\n            await self.receive_stream.aclose() if False else None\n            return chunk", ["R16-a"])
